@@ -53,9 +53,15 @@ def run(report, tier, seed):
             b = codeclab.Lab(sc, ybin, 901 + 2 * j, modelgen.Gen(seed * 13 + j + 77, json_safe=True), pkg=pb, ndjson=(j in (0, 2)))
             a.edit = b.edit = edit
             labs += [a, b]
+        # several protocols of one package, their readers opened one after the other in one process (binary and NDJSON)
+        mlab = codeclab.Lab(sc, ybin, 800, modelgen.Gen(seed * 13 + 800, json_safe=True, cpp_json_safe=True), pkg=several_protocols_package(), ndjson=True)
         import concurrent.futures
         with concurrent.futures.ThreadPoolExecutor(max_workers=4) as ex:
-            list(ex.map(lambda l: l.prepare(), labs))
+            list(ex.map(lambda l: l.prepare(), labs + [mlab]))
+        if not mlab.ok:
+            report.violation(f"{mlab.stage}:model", {"seed": seed, "model_index": mlab.idx, "error": mlab.err, "files": _files(mlab)}, "")
+        else:
+            _one_process(report, mlab, lean, seed, 2 if quick else 6)
         for i in range(0, len(labs), 2):
             a, b = labs[i], labs[i + 1]
             if not a.ok:
@@ -296,6 +302,83 @@ def _judge_ndjson(report, lab, pname, lang, what, header, refuse, rc, err, out, 
     elif size != 0:
         report.violation(f"{lang}:value-delivered-before-refusal:ndjson-{what.split(':')[0]}", dict(replay, output_bytes=size),
                          "the NDJSON reader got past the header check of a stream it must refuse")
+
+
+def several_protocols_package(namespace="Multi"):
+    pkg = modelgen.Package(namespace)
+    P = lambda n: ("prim", n)
+    pkg.defs.append({"kind": "record", "name": "Rec", "tparams": [], "fields": [("id", P("int32")), ("label", P("string")), ("w", ("opt", P("float64")))]})
+    pkg.defs.append({"kind": "protocol", "name": "PA", "steps": [("a", P("int32"), False), ("s", P("string"), True)]})
+    pkg.defs.append({"kind": "protocol", "name": "PB", "steps": [("a", P("int64"), False), ("s", P("string"), True)]})
+    pkg.defs.append({"kind": "protocol", "name": "PC", "steps": [("r", ("named", "Rec", []), True), ("n", P("uint8"), False)]})
+    pkg.defs.append({"kind": "protocol", "name": "PD", "steps": [("r", ("named", "Rec", []), True), ("n", P("uint16"), False)]})
+    return pkg
+
+
+def _one_process(report, lab, lean, seed, rounds):
+    """readers (and writers) of several protocols used one after the other in ONE process: each accepts its own stream and
+    refuses the others', whatever was opened before it (nothing about the expected schema may be remembered across readers)"""
+    import jsonlab
+    g = lab.gen
+    names = list(lab.protos)
+    refs = {}
+    for pname in names:
+        pj = lab.protos[pname]
+        vals = g.gen_step_vals(pj, stream_len=2, size=2)
+        parts = [g.gen_partition(len(v[1])) if v[0] == "stream" else [] for v in vals]
+        b = lab.tmp(f".{pname}.bin")
+        open(b, "wb").write(bytes.fromhex(lean.ask({"op": "enc_proto", "proto": pj, "parts": parts, "vals": vals, "schema": lab.schemas[pname]})["hex"]))
+        tj = lean.ask({"op": "toj_proto", "proto": pj, "vals": vals})
+        j = lab.tmp(f".{pname}.ndjson")
+        open(j, "w", encoding="utf-8").write(jsonlab.ndjson_text(lab.schemas[pname], [(ln[0], ln[1]) for ln in tj["lines"]]))
+        refs[pname] = {"b": b, "j": j}
+    for rnd in range(rounds):
+        order = [(r, src) for r in names for src in names]
+        g.rng.shuffle(order)
+        order = order[:10] + [(n, n) for n in names]          # mixed, then every reader once more on its own stream
+        for fmt in ("b", "j"):
+            jobs, expect = [], []
+            for reader, src in order:
+                out = lab.tmp(f".multi.{fmt}.out")
+                nstreams = sum(1 for s in lab.protos[reader] if s["stream"])
+                jobs.append((reader, fmt, "b", refs[src][fmt], out, [2] * nstreams))
+                expect.append(0 if lab.schemas[reader] == lab.schemas[src] else 3)
+            rcs, err = lab.run_cpp_multi(jobs)
+            for (reader, src), job, want, rc in zip(order, jobs, expect, rcs):
+                report.case(distinct_key=("one-process", fmt, reader, src, rnd, tuple(order)))
+                report.count(f"one-process.{'own' if want == 0 else 'foreign'}.{'binary' if fmt == 'b' else 'ndjson'}.cpp")
+                replay = {"what": "several readers in one process", "format": "binary" if fmt == "b" else "ndjson", "reader_protocol": reader, "stream_of": src,
+                          "order": [f"{s}->{r}" for r, s in order], "rcs": rcs, "stderr": err, "files": _files(lab), "seed": seed}
+                size = os.path.getsize(job[4]) if os.path.exists(job[4]) else 0
+                if want == 0 and rc != 0:
+                    report.violation(f"cpp:own-stream-refused-after-other-readers:{'binary' if fmt == 'b' else 'ndjson'}", replay,
+                                     "a reader refused a stream with its own schema after readers of other protocols had been opened in the same process")
+                    break
+                if want == 3 and rc == 0:
+                    report.violation(f"cpp:foreign-stream-accepted-after-other-readers:{'binary' if fmt == 'b' else 'ndjson'}", replay,
+                                     "a reader accepted the stream of another protocol after readers of other protocols had been opened in the same process")
+                    break
+                if want == 3 and rc == 3 and size != 0:
+                    report.violation("cpp:value-delivered-before-refusal:one-process", dict(replay, output_bytes=size), "")
+                    break
+                if rc not in (0, 3):
+                    report.violation(f"cpp:crash:{rc}", replay, "")
+                    break
+    # Python: the same in one interpreter (pyxlate runs all jobs of a call in one process)
+    for fmt in ("b", "j"):
+        order = [(r, src) for r in names for src in names]
+        g.rng.shuffle(order)
+        pyjobs = [{"proto": r, "infmt": fmt, "outfmt": "b", "in": refs[src][fmt], "out": lab.tmp(".multi.py.out")} for r, src in order]
+        for (reader, src), job, res in zip(order, pyjobs, lab.run_py(pyjobs)):
+            want = 0 if lab.schemas[reader] == lab.schemas[src] else 3
+            report.case(distinct_key=("one-process-py", fmt, reader, src))
+            report.count(f"one-process.{'own' if want == 0 else 'foreign'}.{'binary' if fmt == 'b' else 'ndjson'}.py")
+            replay = {"what": "several readers in one process", "format": fmt, "reader_protocol": reader, "stream_of": src, "rc": res["rc"], "exc": res["exc"],
+                      "files": _files(lab), "seed": seed}
+            if want == 0 and res["rc"] != 0:
+                report.violation("py:own-stream-refused-after-other-readers", replay, "")
+            elif want == 3 and res["rc"] == 0:
+                report.violation("py:foreign-stream-accepted-after-other-readers", replay, "")
 
 
 def _varlen(n):
